@@ -20,6 +20,7 @@ import (
 	"flag"
 	"fmt"
 	"io"
+	"log"
 	"math/rand"
 	"net"
 	"net/http"
@@ -90,6 +91,7 @@ type Op struct {
 	Parent  int      `json:"parent"`
 	Mw      string   `json:"mw"`
 	MwArgs  []string `json:"mw_args"`
+	Opaque  string   `json:"opaque"` // why the translator does not accept the middleware's source as a pass-through wrapper
 	Prefix  bool     `json:"prefix"`
 	Tpl     string   `json:"tpl"`
 	Methods []string `json:"methods"`
@@ -108,6 +110,8 @@ type Assembly struct {
 	Atoms []Atom `json:"atoms"`
 	Must  []int  `json:"must"`
 	Ops   []Op   `json:"ops"`
+	// patterns registered on http.DefaultServeMux somewhere in the sources (census of the translator)
+	DefaultMuxPatterns []string `json:"default_mux_patterns"`
 }
 
 // ---------------------------------------------------------------- fake back-ends
@@ -492,7 +496,9 @@ func doServer(root *mux.Router, q Req) Obs {
 	cur = &record{}
 	backendCalls = 0
 	curMu.Unlock()
-	srv := httptest.NewServer(root)
+	srv := httptest.NewUnstartedServer(root)
+	srv.Config.ErrorLog = log.New(io.Discard, "", 0) // "WriteHeader on hijacked connection" from gzipResponseWriter.Close after an upgrade
+	srv.Start()
 	var o Obs
 	func() {
 		conn, err := net.Dial("tcp", srv.Listener.Addr().String())
@@ -729,6 +735,94 @@ func muxProbe() map[string]interface{} {
 	return out
 }
 
+// ---------------------------------------------------------------- the pass-through wrappers, alone
+// model/Router.v treats AcceptEncoding, Cors and Logging as middlewares that call next exactly once whatever the request
+// looks like (so that standing before BasicAuth they cannot answer in its place): measured here on the real functions.
+func mwProbe() map[string]interface{} {
+	type row struct {
+		Mw      string `json:"mw"`
+		Method  string `json:"method"`
+		Headers string `json:"headers"`
+		Status  int    `json:"status"`
+		Want    int    `json:"want"`
+		Next    int    `json:"next"`
+	}
+	mws := []struct {
+		name string
+		f    func(http.Handler) http.Handler
+	}{
+		{"AcceptEncoding", middleware.AcceptEncodingMiddleware},
+		{"Cors(\"\")", middleware.CorsMiddleware("")},
+		{"Cors(origin)", middleware.CorsMiddleware("https://grafana.example")},
+		{"Logging", middleware.LoggingMiddleware("[{{.status}}] {{.method}} {{.url}} - LAT:{{.latency}}")},
+	}
+	hsets := []struct {
+		name string
+		h    map[string]string
+	}{
+		{"none", nil},
+		{"gzip", map[string]string{"Accept-Encoding": "gzip"}},
+		{"origin", map[string]string{"Origin": "http://elsewhere.example"}},
+		{"preflight", map[string]string{"Origin": "http://elsewhere.example", "Access-Control-Request-Method": "POST", "Access-Control-Request-Headers": "authorization"}},
+		{"preflight+gzip", map[string]string{"Origin": "http://elsewhere.example", "Access-Control-Request-Method": "GET", "Accept-Encoding": "gzip, deflate"}},
+		{"acrm-only", map[string]string{"Access-Control-Request-Method": "GET"}},
+		{"upgrade", map[string]string{"Connection": "Upgrade", "Upgrade": "websocket", "Sec-WebSocket-Version": "13", "Sec-WebSocket-Key": "dGhlIHNhbXBsZSBub25jZQ=="}},
+	}
+	var rows []row
+	bad := 0
+	n := 0
+	for _, m := range mws {
+		for _, method := range []string{"GET", "POST", "OPTIONS", "HEAD", "DELETE", "PUT", "PATCH", "CONNECT", "TRACE"} {
+			for _, hs := range hsets {
+				for _, st := range []int{200, 204, 401, 404, 500} {
+					next := 0
+					h := m.f(http.HandlerFunc(func(w http.ResponseWriter, r *http.Request) {
+						next++
+						w.WriteHeader(st)
+						if st != 204 {
+							w.Write([]byte("x"))
+						}
+					}))
+					req := httptest.NewRequest(method, "http://qryn.test/ready", nil)
+					for k, v := range hs.h {
+						req.Header.Set(k, v)
+					}
+					rec := httptest.NewRecorder()
+					hx.Catch(func() { h.ServeHTTP(rec, req) })
+					n++
+					if next != 1 || rec.Code != st {
+						bad++
+						if len(rows) < 12 {
+							rows = append(rows, row{m.name, method, hs.name, rec.Code, st, next})
+						}
+					}
+				}
+			}
+		}
+	}
+	return map[string]interface{}{"kind": "mwprobe", "n": n, "bad": bad, "rows": rows}
+}
+
+// http.DefaultServeMux of THIS process: the harness links the repository's packages (ctrl, reader, writer, view, shared), so
+// whatever their imports register on the default mux (net/http/pprof, expvar, http.Handle in an init) is registered here too.
+// The translator's census proves that nothing serves the default mux; if something does, these are the paths it exposes.
+func defaultMuxProbe(patterns []string) map[string]interface{} {
+	paths := []string{"/debug/pprof/", "/debug/pprof/cmdline", "/debug/vars", "/metrics", "/ready"}
+	for _, p := range patterns {
+		if p != "" && p != "/" {
+			paths = append(paths, concrete(p))
+		}
+	}
+	res := map[string]int{}
+	for _, p := range paths {
+		rec := httptest.NewRecorder()
+		req := httptest.NewRequest("GET", "http://qryn.test"+p, nil)
+		hx.Catch(func() { http.DefaultServeMux.ServeHTTP(rec, req) })
+		res[p] = rec.Code
+	}
+	return map[string]interface{}{"kind": "defaultmux", "status": res}
+}
+
 // ---------------------------------------------------------------- main
 func main() {
 	asmPath := flag.String("assembly", "", ".build/gen/GenRoutes.json")
@@ -756,14 +850,47 @@ func main() {
 	wctrl.Registry = fakeSvcRegistry{}
 
 	configs := []Config{
-		{Name: "all+cors/A", Login: "admin", Pass: "s3cr:et", Cors: true, Origin: "https://grafana.example", Mode: "all"},
-		{Name: "all/B", Login: "user", Pass: "pass", Cors: false, Mode: "all"},
-		{Name: "writer/B", Login: "user", Pass: "pass", Cors: false, Mode: "writer"},
-		{Name: "reader+cors/A", Login: "admin", Pass: "s3cr:et", Cors: true, Origin: "", Mode: "reader"},
+		{Name: "all+cors/A", Login: "admin", Pass: "s3cr:et", Cors: true, Origin: "https://grafana.example", Mode: "all", Tier: "rich"},
+		{Name: "all/B", Login: "user", Pass: "pass", Cors: false, Mode: "all", Tier: "rich"},
+		{Name: "writer/B", Login: "user", Pass: "pass", Cors: false, Mode: "writer", Tier: "rich"},
+		{Name: "reader+cors/A", Login: "admin", Pass: "s3cr:et", Cors: true, Origin: "", Mode: "reader", Tier: "rich"},
 	}
 	if _, unknown := envOf(&asm, configs[0]); len(unknown) > 0 {
-		configs = append(configs, Config{Name: "all/B+unknown-atoms-true", Login: "user", Pass: "pass", Mode: "all", Unknown: true})
+		configs = append(configs, Config{Name: "all/B+unknown-atoms-true", Login: "user", Pass: "pass", Mode: "all", Unknown: true, Tier: "rich"})
 	}
+	// every valuation of the condition atoms that a configuration can realise: every Mode literal of the sources plus ""
+	// and a mode no literal mentions, CORS off / on with an empty origin / on with an origin
+	modes := map[string]bool{"": true, "no-such-mode": true}
+	for _, at := range asm.Atoms {
+		if strings.HasPrefix(at.Kind, "mode_eq:") {
+			modes[strings.TrimPrefix(at.Kind, "mode_eq:")] = true
+		}
+	}
+	var modeList []string
+	for m := range modes {
+		modeList = append(modeList, m)
+	}
+	sort.Strings(modeList)
+	for _, m := range modeList {
+		for ck := 0; ck < 3; ck++ {
+			c := Config{Name: fmt.Sprintf("enum/mode=%q/cors=%s", m, []string{"off", "on-empty-origin", "on-origin"}[ck]), Login: "user", Pass: "pass",
+				Mode: m, Cors: ck > 0, Tier: "enum"}
+			if ck == 2 {
+				c.Origin = "https://grafana.example"
+			}
+			configs = append(configs, c)
+		}
+	}
+	// a valuation main() cannot realise (reader.Init is always handed the router), interpreted all the same
+	configs = append(configs, Config{Name: "enum/mode=\"all\"/cors=on-origin/ownHttpServer", Login: "user", Pass: "pass", Mode: "all", Cors: true,
+		Origin: "https://grafana.example", OwnHTTP: true, Tier: "enum"})
+	// credential edge cases: a login containing ':' (locks everybody out), and the configurations in which main() does
+	// NOT install BasicAuth because one of the two is empty (the property's premise is not met)
+	configs = append(configs,
+		Config{Name: "colon-login", Login: "us:er", Pass: "pass", Mode: "all", Tier: "enum"},
+		Config{Name: "open/login-without-password", Login: "user", Pass: "", Mode: "all", Tier: "open"},
+		Config{Name: "open/password-without-login", Login: "", Pass: "pass", Mode: "all", Cors: true, Tier: "open"},
+		Config{Name: "open/neither", Login: "", Pass: "", Mode: "all", Tier: "open"})
 	rnd := hx.Rand(f.Seed)
 	id := 0
 
@@ -772,6 +899,8 @@ func main() {
 		return
 	}
 	out.Put(muxProbe())
+	out.Put(mwProbe())
+	out.Put(defaultMuxProbe(asm.DefaultMuxPatterns))
 
 	for ci, c := range configs {
 		env, unknown := envOf(&asm, c)
@@ -788,10 +917,6 @@ func main() {
 		// Walk
 		var walkedAll []RouteDesc
 		walkedBy := map[int][]RouteDesc{}
-		for rid, r := range b.routers {
-			_ = rid
-			_ = r
-		}
 		var rids []int
 		for rid := range b.routers {
 			rids = append(rids, rid)
@@ -822,7 +947,14 @@ func main() {
 			"have_static": view.HaveStatic})
 
 		classes := headerClasses(c.Login, c.Pass)
+		byName := map[string]hclass{}
+		for _, hc := range classes {
+			byName[hc.name] = hc
+		}
 		light := []string{"absent", "bearer", "malformed-b64", "wrong-pass", "trailing-garbage", "right"}
+		if c.Tier != "rich" {
+			light = []string{"absent", "wrong-pass", "right"}
+		}
 		isLight := map[string]bool{}
 		for _, l := range light {
 			isLight[l] = true
@@ -860,10 +992,13 @@ func main() {
 					add(m, p, "route")
 				}
 			}
+			nRoute := len(targets)
 			for _, d := range walkedBy[root] {
 				p := concrete(d.Tpl)
 				add("DELETE", p, "other-method")
-				add("GET", p+"/", "trailing-slash")
+				if c.Tier == "rich" {
+					add("GET", p+"/", "trailing-slash")
+				}
 			}
 			add("GET", "/", "unrouted")
 			add("GET", "/no/such/route", "unrouted")
@@ -871,10 +1006,17 @@ func main() {
 			add("GET", "/ready/extra", "unrouted")
 			add("GET", "/loki", "unrouted")
 			k := 0
+			emit := func(kind, class, rclass string, q Req) {
+				id++
+				out.Put(Case{Kind: kind, ID: id, Cfg: c.Name, Root: root, Class: class, RClass: rclass, Req: q, Obs: do(r, q)})
+			}
 			for _, t := range targets {
 				for _, hc := range classes {
 					main := ci == 0 && t.rclass == "route"
 					if !main && !isLight[hc.name] {
+						continue
+					}
+					if c.Tier != "rich" && t.rclass != "route" && hc.name != "absent" {
 						continue
 					}
 					all4 := main && (*fullProduct || isKey[hc.name])
@@ -886,10 +1028,58 @@ func main() {
 						q := Req{Method: t.method, Path: t.path, HasAuth: hc.has, Auth: hx.Hex(hc.val), Gzip: combo&1 == 1, Origin: combo&2 == 2,
 							HStatus: statuses[k%len(statuses)]}
 						k++
-						id++
-						out.Put(Case{Kind: "case", ID: id, Cfg: c.Name, Root: root, Class: hc.name, RClass: t.rclass, Req: q, Obs: do(r, q)})
+						emit("case", hc.name, t.rclass, q)
 					}
 				}
+			}
+			// CORS pre-flight: (1) OPTIONS + Origin + Access-Control-Request-Method on every walked route, without and with
+			// credentials; (2) the pre-flight headers on the route's own method (a CORS layer that recognises a pre-flight
+			// by the header alone must not answer before BasicAuth either); (3) OPTIONS on unrouted paths
+			for ti, t := range targets {
+				if ti >= nRoute && t.rclass != "unrouted" {
+					continue
+				}
+				pf := []struct{ method, hn, rc string }{
+					{"OPTIONS", "absent", "preflight-options"},
+					{t.method, "absent", "preflight-header"},
+				}
+				if c.Tier == "rich" {
+					pf = append(pf, []struct{ method, hn, rc string }{
+						{"OPTIONS", "right", "preflight-options"}, {"OPTIONS", "wrong-pass", "preflight-options"},
+						{t.method, "wrong-pass", "preflight-header"}, {t.method, "right", "preflight-header"}}...)
+				}
+				for _, x := range pf {
+					hc := byName[x.hn]
+					q := Req{Method: x.method, Path: t.path, HasAuth: hc.has, Auth: hx.Hex(hc.val), Gzip: k%2 == 1, Preflight: t.method,
+						HStatus: statuses[k%len(statuses)]}
+					k++
+					emit("case", hc.name, x.rc, q)
+				}
+			}
+			// websocket handshakes on the tail routes (real TCP connection; the instrumented handler hijacks and answers 101)
+			if c.Tier == "rich" || c.Tier == "open" {
+				for ti, t := range targets {
+					if ti >= nRoute || t.method != "GET" || !strings.HasSuffix(t.path, "/tail") {
+						continue
+					}
+					for _, hn := range []string{"absent", "wrong-pass", "trailing-garbage", "bearer", "right"} {
+						hc := byName[hn]
+						for gz := 0; gz < 2; gz++ {
+							q := Req{Method: "GET", Path: t.path, HasAuth: hc.has, Auth: hx.Hex(hc.val), Gzip: gz == 1, Origin: gz == 1, Upgrade: true, HStatus: 101}
+							emit("case", hc.name, "ws-handshake", q)
+						}
+					}
+					if ci == 0 {
+						for _, hn := range []string{"absent", "wrong-pass", "trailing-garbage", "right"} {
+							hc := byName[hn]
+							q := Req{Method: "GET", Path: t.path, Query: "query=%7Bjob%3D%22x%22%7D", HasAuth: hc.has, Auth: hx.Hex(hc.val), Upgrade: true, Exec: true}
+							emit("exec", hc.name, "exec-ws", q)
+						}
+					}
+				}
+			}
+			if c.Tier != "rich" {
+				continue
 			}
 			// random header byte strings on a rotating route
 			var routeTargets []target
@@ -907,22 +1097,19 @@ func main() {
 				hc := randomHeader(rnd, c.Login, c.Pass)
 				q := Req{Method: t.method, Path: t.path, HasAuth: true, Auth: hx.Hex(hc.val), Gzip: rnd.Intn(2) == 0, Origin: rnd.Intn(2) == 0,
 					HStatus: statuses[rnd.Intn(len(statuses))]}
-				id++
-				out.Put(Case{Kind: "case", ID: id, Cfg: c.Name, Root: root, Class: hc.name, RClass: "route", Req: q, Obs: do(r, q)})
+				if rnd.Intn(8) == 0 {
+					q.Preflight = t.method
+				}
+				emit("case", hc.name, "route", q)
 			}
 			// positive control of the back-end log: the REAL handlers, reached with and without the credentials
 			if ci == 0 {
 				for _, t := range []target{{"GET", "/loki/api/v1/labels", "exec"}, {"POST", "/loki/api/v1/push", "exec"}, {"GET", "/ready", "exec"},
 					{"GET", "/api/v1/labels", "exec"}, {"POST", "/v1/traces", "exec"}} {
 					for _, hn := range []string{"absent", "wrong-pass", "trailing-garbage", "right"} {
-						for _, hc := range classes {
-							if hc.name != hn {
-								continue
-							}
-							q := Req{Method: t.method, Path: t.path, HasAuth: hc.has, Auth: hx.Hex(hc.val), HStatus: 0, Exec: true}
-							id++
-							out.Put(Case{Kind: "exec", ID: id, Cfg: c.Name, Root: root, Class: hc.name, RClass: "exec", Req: q, Obs: do(r, q)})
-						}
+						hc := byName[hn]
+						q := Req{Method: t.method, Path: t.path, HasAuth: hc.has, Auth: hx.Hex(hc.val), HStatus: 0, Exec: true}
+						emit("exec", hc.name, "exec", q)
 					}
 				}
 			}
@@ -930,10 +1117,14 @@ func main() {
 	}
 
 	// the middleware alone
-	for _, cr := range [][2]string{{"admin", "s3cr:et"}, {"user", "pass"}, {"a", "b"}, {"us:er", "pass"}} {
+	for ci, cr := range [][2]string{{"admin", "s3cr:et"}, {"user", "pass"}, {"a", "b"}, {"us:er", "pass"}, {"user", ""}, {"", "pass"}, {"", ""}} {
 		login, pass := cr[0], cr[1]
 		hs := headerClasses(login, pass)
-		for i := 0; i < f.N; i++ {
+		nr := f.N
+		if ci >= 4 {
+			nr = f.N / 3
+		}
+		for i := 0; i < nr; i++ {
 			hs = append(hs, randomHeader(rnd, login, pass))
 		}
 		for _, hc := range hs {
